@@ -444,4 +444,27 @@ theorem parseArgs_inv (r : Resp) (cmd : Bytes) (args : List (Option Bytes)) (h :
 example : parseArgs (changeArgsToResp (some [83, 69, 84]) [some [107], none, some []])
     = .ok ([115, 101, 116], [some [107], none, some []]) := by rfl
 
+/-! ### 7. The encoding is prefix-free -/
+
+/-- **prefix-free.** No encoding of a well-formed value is a strict prefix of the encoding of another: on a command stream
+    the boundary after a message is decided by the message alone, never by what follows (`roundtrip` + `reject_truncated`). -/
+theorem enc_prefix_free (v w : Resp) (hv : WF v = true) (hw : WF w = true) (s : Bytes) (h : enc v ++ s = enc w) : s = [] := by
+  cases s with
+  | nil => rfl
+  | cons a t =>
+  exfalso
+  have h1 := reject_truncated w hw (enc v) (a :: t) (by simp) h 0 0
+  have h2 := roundtrip v hv 0 [] 0
+  simp at h1 h2
+  rw [h2] at h1
+  cases h1
+
+/-- … hence a value followed by anything is never the encoding of a different value -/
+theorem enc_prefix_unique (v w : Resp) (hv : WF v = true) (hw : WF w = true) (s : Bytes) (h : enc v ++ s = enc w) : v = w := by
+  have hs := enc_prefix_free v w hv hw s h
+  subst hs
+  exact enc_injective v w hv hw (by simpa using h)
+
+example : WF (.bulk (some [1])) = true ∧ WF (.arr (some [.int 5])) = true := by decide
+
 end RSVerif.Properties.C10
